@@ -23,3 +23,22 @@ def _split_cases(seed, tier):
     for c in strs:
         for sep in [":", "::", "/", "a"]:
             yield {"curie": c, "sep": sep}
+
+
+@domain("C01.order_independent")
+def _c01_order(seed, tier):
+    """c2 = the same records supplied in another order / added incrementally (deep copies)."""
+    from curies.api import Converter
+    rng = random.Random(seed)
+    n = 40 if tier == "quick" else 300
+    for c1 in worlds.converters(n, seed):
+        recs = [r.model_copy(deep=True) for r in c1.records]
+        rng.shuffle(recs)
+        variants = [Converter(recs, delimiter=c1.delimiter)]
+        inc = Converter([], delimiter=c1.delimiter)
+        for r in [r.model_copy(deep=True) for r in reversed(c1.records)]:
+            inc.add_record(r)
+        variants.append(inc)
+        for c2 in variants:
+            for u in worlds.uri_pool(c1):
+                yield {"c1": c1, "c2": c2, "u": u}
